@@ -56,6 +56,8 @@ func checkC04(c *Ctx) {
 	c.R.Rule(ruleB1, "for every s[i], s[a:b], s[a:] and every encoding/binary precondition in code reachable from a Decode method: 0 <= i < len(s), 0 <= a <= b <= len(s) - against len, not cap - proven for every byte string by abstract interpretation (integers as linear expressions over symbols, slices with symbolic lengths, facts from dominating branches, callees analysed per call site, loop invariants by Houdini) and Fourier-Motzkin refutation.")
 	c.R.Rule(ruleB2, "every value returned as the byte count of a Decode satisfies 0 <= n <= len(src).")
 	c.R.Trusted = append(c.R.Trusted, "encoding/binary table: Uint16/PutUint16 need len >= 2; Uvarint returns -10 <= n <= min(10, len)", "+, - on int do not overflow")
+	// the flag bits the decoders validate (T1)
+	c.flagBitTables()
 	entries := c.decodeEntries()
 	c.R.Count("Decode entry points", len(entries))
 	c.R.Floor("Decode entry points (8 declared Decode bodies)", len(entries), 8)
